@@ -24,6 +24,8 @@ import (
 	"github.com/honeycombio/refinery/types"
 	"github.com/honeycombio/refinery/verifharness/vkit"
 	"pgregory.net/rapid"
+
+	libhoney "github.com/honeycombio/libhoney-go"
 )
 
 // C14: each trace is sampled by the sampler configured for its destination, and
@@ -71,12 +73,16 @@ const (
 	c14Alnum = "0123456789abcdefghijklmnopqrstuvwxyzABCDEFGHIJKLMNOPQRSTUVWXYZ"
 )
 
-// c14Verdict is the oracle's reading of a key, written from the documented
-// shapes (rules.md / Samplers description: a classic key is a 32-character
-// hexadecimal value; Honeycomb classic ingest keys are hc<region letter>ic_ plus
-// 58 lower-case alphanumerics; environment keys are 20-23 alphanumerics or
-// hc<region letter>ik_ plus 58): "classic", "environment", or "" = the documents
-// leave it open (don't-care).
+// c14Verdict is the oracle's reading of a key, written from the exact key
+// shapes Honeycomb publishes (rules.md: a classic key is a 32-character
+// hexadecimal value - Honeycomb issues and its SDKs accept lower-case digits
+// only, libhoney-go `^[a-f0-9]*$`; a classic ingest key is `hc[a-z]ic_` followed
+// by 58 characters of [0-9a-z], 64 in all): a key of exactly one of these two
+// shapes is "classic"; every other non-empty key - environment keys, ingest
+// environment keys `hc[a-z]ik_...`, and every malformed or near-miss key - is not
+// a classic key and therefore selects by "environment". Only the empty key is
+// left open ("" = don't-care): no trace can be sent without a key, Honeycomb's
+// SDK calls it classic, refinery's router special-cases it before classifying.
 func c14Verdict(key string) string {
 	allIn := func(s, set string) bool {
 		for i := 0; i < len(s); i++ {
@@ -90,23 +96,13 @@ func c14Verdict(key string) string {
 	n := len(key)
 	switch {
 	case n == 0:
-		return "" // no key at all: Honeycomb rejects it; not a trace the statement speaks about
+		return ""
 	case n == 32 && allIn(key, c14Hex):
 		return "classic"
-	case n == 32 && allIn(strings.ToLower(key), c14Hex):
-		return "" // upper-case hexadecimal: "32-character hexadecimal value" could be read either way
 	case n == 64 && key[:2] == "hc" && isLetter(key[2]) && key[3:6] == "ic_" && allIn(key[6:], c14Lower):
 		return "classic"
-	case n == 64 && key[:2] == "hc" && isLetter(key[2]) && key[3:6] == "ik_" && allIn(key[6:], c14Lower):
-		return "environment"
-	case n >= 20 && n <= 23 && allIn(key, c14Alnum):
-		return "environment"
-	case n != 32 && n != 64:
-		return "environment" // no classic shape has this length
-	case n == 32:
-		return "environment" // 32 characters, not all hexadecimal digits
 	default:
-		return "" // 64 characters, near-miss of an ingest key: not described by refinery's documents
+		return "environment"
 	}
 }
 
@@ -121,7 +117,23 @@ func c14IsValidKey(key string) bool {
 		return false
 	}
 	n := len(key)
-	return (n >= 20 && n <= 23) || (n == 64 && key[3:6] == "ik_")
+	if n >= 20 && n <= 23 {
+		for i := 0; i < n; i++ {
+			if strings.IndexByte(c14Alnum, key[i]) < 0 {
+				return false
+			}
+		}
+		return true
+	}
+	if n != 64 || key[:2] != "hc" || key[2] < 'a' || key[2] > 'z' || key[3:6] != "ik_" {
+		return false
+	}
+	for i := 6; i < n; i++ {
+		if strings.IndexByte(c14Lower, key[i]) < 0 {
+			return false
+		}
+	}
+	return true
 }
 
 func c14GenKey(t *rapid.T, label string) (class, key string) {
@@ -132,7 +144,8 @@ func c14GenKey(t *rapid.T, label string) (class, key string) {
 	class = rapid.SampledFrom([]string{
 		"classic32", "classic32", "classic32", "classic-ingest", "classic-ingest",
 		"env2x", "env2x", "env2x", "env-ingest", "env-ingest",
-		"hex-wrong-length", "hex32-one-nonhex", "ingest-wrong-length", "hex32-upper", "ingest-near-miss", "empty",
+		"hex-wrong-length", "hex32-one-bad-char", "hex32-one-bad-char", "ingest-wrong-length", "hex32-upper",
+		"ingest-one-bad-char", "ingest-one-bad-char", "ingest-one-bad-char", "ingest-bad-prefix", "ingest-bad-prefix", "empty",
 	}).Draw(t, label+"/class")
 	switch class {
 	case "classic32":
@@ -145,27 +158,35 @@ func c14GenKey(t *rapid.T, label string) (class, key string) {
 		key = "hc" + region() + "ik_" + str(c14Lower, 58, "tail")
 	case "hex-wrong-length":
 		key = str(c14Hex, rapid.SampledFrom([]int{31, 33, 16, 63, 65, 24}).Draw(t, label+"/len"), "hex")
-	case "hex32-one-nonhex":
+	case "hex32-one-bad-char":
+		// exactly one character that is not a lower-case hex digit, at a drawn
+		// position (aimed at both ends): upper-case hex digits, the neighbours of
+		// the digit/letter ranges in ASCII, letters beyond f
 		k := []byte(str(c14Hex, 32, "hex"))
-		k[rapid.IntRange(0, 31).Draw(t, label+"/pos")] = rapid.SampledFrom([]byte("gzGZ-_ /:`@")).Draw(t, label+"/bad")
+		pos := rapid.SampledFrom([]int{0, 0, 31, 31, 1, 30, -1, -1}).Draw(t, label+"/pos")
+		if pos < 0 {
+			pos = rapid.IntRange(0, 31).Draw(t, label+"/anypos")
+		}
+		k[pos] = rapid.SampledFrom([]byte("ABCDEFgzGZ/:`@-_ .")).Draw(t, label+"/bad")
 		key = string(k)
 	case "ingest-wrong-length":
 		key = "hc" + region() + "ic_" + str(c14Lower, rapid.SampledFrom([]int{57, 59, 26}).Draw(t, label+"/len"), "tail")
 	case "hex32-upper":
 		key = strings.ToUpper(str(c14Hex, 32, "hex"))
-	case "ingest-near-miss":
+	case "ingest-one-bad-char":
+		// valid hc<region>ic_ prefix, exactly one illegal character in the 58-character
+		// suffix at a drawn position (aimed at its first and last two positions)
 		k := []byte("hc" + region() + "ic_" + str(c14Lower, 58, "tail"))
-		switch rapid.IntRange(0, 3).Draw(t, label+"/miss") {
-		case 0:
-			k[2] = rapid.SampledFrom([]byte("0A_")).Draw(t, label+"/region")
-		case 1:
-			k[5] = '-'
-		case 2:
-			k[6+rapid.IntRange(0, 57).Draw(t, label+"/pos")] = rapid.SampledFrom([]byte("AZ-_")).Draw(t, label+"/bad")
-		default:
-			k[0] = 'H'
+		pos := rapid.SampledFrom([]int{6, 6, 7, 62, 63, 63, -1, -1}).Draw(t, label+"/pos")
+		if pos < 0 {
+			pos = rapid.IntRange(6, 63).Draw(t, label+"/anypos")
 		}
+		k[pos] = rapid.SampledFrom([]byte("AZMK/:`{@-_ .")).Draw(t, label+"/bad")
 		key = string(k)
+	case "ingest-bad-prefix":
+		// 58 valid suffix characters behind a prefix that is not hc[a-z]ic_
+		pre := rapid.SampledFrom([]string{"hcAic_", "hc1ic_", "hc_ic_", "hcaic-", "hcaic.", "hcaIc_", "hcaiC_", "Hcaic_", "hCaic_", "hbaic_", "xcaic_", "hcaid_", "hcajc_", "hc`ic_", "hc{ic_"}).Draw(t, label+"/prefix")
+		key = pre + str(c14Lower, 58, "tail")
 	default:
 		key = ""
 	}
@@ -468,6 +489,11 @@ func execC14(c c14Case) vkit.Result {
 	// router, DetermineSamplerKey and the collector all use) ----
 	checkKey := func(cl, key string) string {
 		verdict := c14Verdict(key)
+		if key != "" && (verdict == "classic") != libhoney.IsClassicKey(key) {
+			// the oracle and Honeycomb's own SDK disagree: the oracle is not to be trusted on this key
+			violate("harness/oracle-differs-from-libhoney", "key %q: oracle says %q, libhoney.IsClassicKey=%v", key, verdict, libhoney.IsClassicKey(key))
+			return ""
+		}
 		treated := "environment"
 		if config.IsLegacyAPIKey(key) {
 			treated = "classic"
@@ -850,11 +876,12 @@ func c14RunCollector(cfg config.Config, built [][]*types.Span, decisions []c14De
 func TestC14(t *testing.T) {
 	c14T = t
 	vkit.Run(t, vkit.Spec[c14Case]{
-		ID: "C14",
-		Rule: "rapid-generated cases: DatasetPrefix, 1-3 named destinations plus __default__, each with a recognisable sampler (3-rule RulesBasedSampler with per-destination rule names and fields, top-level DynamicSampler with per-destination fields, or DeterministicSampler with a per-destination rate); 1-5 traces with an API key drawn by shape class (classic 32-hex, classic ingest, 20-23 char environment, environment ingest, malformed near-misses, empty), an environment name, a dataset, 1-3 spans carrying the fields of every destination, each span built through one of the ingestion paths (batch msgpack extraction, OTLP metadata-only, map payload); plus up to 12 classification-only key probes. Loaded from files with config.NewConfig; spans are handed to a real InMemCollector in a synctest bubble. Oracle: key classification by the documented shapes, destination name env / [prefix.]dataset with fallback to __default__, reference evaluation of the destination's rules on the span contents. Non-trivial: a judged trace whose destination has no sampler of its own, or a classic key with DatasetPrefix set. Distinct = distinct case JSON.",
+		ID:   "C14",
+		Rule: "rapid-generated cases: DatasetPrefix, 1-3 named destinations plus __default__, each with a recognisable sampler (3-rule RulesBasedSampler with per-destination rule names and fields, top-level DynamicSampler with per-destination fields, or DeterministicSampler with a per-destination rate); 1-5 traces with an API key drawn by shape class (classic 32-hex, classic ingest, 20-23 char environment, environment ingest, malformed near-misses, empty), an environment name, a dataset, 1-3 spans carrying the fields of every destination, each span built through one of the ingestion paths (batch msgpack extraction, OTLP metadata-only, map payload); plus up to 12 classification-only key probes (near-misses are aimed: exactly one illegal character at the first/last positions of the 32-hex key or of the ingest key's suffix, or a wrong ingest prefix). Loaded from files with config.NewConfig; spans are handed to a real InMemCollector in a synctest bubble. Oracle: key classification by the documented shapes, destination name env / [prefix.]dataset with fallback to __default__, reference evaluation of the destination's rules on the span contents. Non-trivial: a judged trace whose destination has no sampler of its own, or a classic key with DatasetPrefix set. Distinct = distinct case JSON.",
 		Assumptions: []string{
 			"the harness plays route.Router: environment is '' for an empty or (per config.IsLegacyAPIKey) classic key, else the name Honeycomb's /1/auth reports; spans are built like Router.processEvent builds them",
-			"keys whose shape the documents leave open (32 upper-case hex digits, 64-character near-misses of ingest keys, the empty key) are don't-care: counted, not judged",
+			"a key is classic iff it has exactly one of the two published classic shapes (32 lower-case hex digits; hc[a-z]ic_ + 58 x [0-9a-z]); every other non-empty key, including near-misses with one illegal character or a wrong prefix, must select by environment. The harness cross-checks this oracle against libhoney-go's IsClassicKey on every key",
+			"only the empty key is don't-care (counted, not judged): no trace is sent without a key, Honeycomb's SDK calls it classic, refinery's router special-cases it before classifying",
 			"traces with malformed keys are not judged beyond key classification (Honeycomb's auth lookup refuses them before any trace exists)",
 			"all generated samplers keep every trace (rate 1) except DeterministicSampler destinations, which are recognised by their rate in the decision cache (collect/verif_hooks.go VerifCheckTrace)",
 			"sample-key and reason formats are not pinned: only the presence of per-destination rule names / value tokens is asserted",
